@@ -186,6 +186,29 @@ def case_linear_projected(**p):
     gap = np.abs(a[1] - a[0]) - np.abs(b_[1] - b_[0])
     return dict(reproduced=bool(np.min(gap) < -1e-4 * max(1.0, float(np.max(np.abs(kn))))),
                 detail=dict(raw_weights=wn.tolist(), projected=kn.tolist(), dominant_change=(a[1] - a[0]).tolist(), weak_change=(b_[1] - b_[0]).tolist()))
+  # monotone in every constrained input, for arbitrary raw weights: the projection is what makes it so
+  def rpm(m, j, sgn):
+    wn = core.model_np(m, W)
+    kn = np.asarray(trc.tf_run(wn)[0], dtype=np.float64)
+    vvn = {layer.kernel.ref(): kn}
+    if p.get('bias', True):
+      vvn[layer.bias.ref()] = core.model_np(m, vv[layer.bias.ref()])
+    a = np.asarray(tr.tf_run(core.model_np(m, x), var_values=vvn)[0], dtype=np.float64).reshape(2, -1)
+    worst = float(np.max(sgn * (a[0] - a[1])))
+    return dict(reproduced=bool(worst > 1e-4 * max(1.0, float(np.max(np.abs(kn))))),
+                detail=dict(raw_weights=wn.tolist(), projected=kn.tolist(), outputs=a.tolist(), input=j, direction=sgn))
+  for j, mj in enumerate(p['mono']):
+    if not mj:
+      continue
+    rel = []
+    for u in range(X.shape[1]):
+      for i in range(n):
+        rel.append(X[1, u, i] >= X[0, u, i] if i == j else X[1, u, i] == X[0, u, i])
+    bad = [sym.s_cmp('gt', sym.s_mul(o[0, u], mj), sym.s_mul(o[1, u], mj)) for u in range(units)]
+    case.solve('projected-weights-give-monotone-output[input=%d]' % j, core.any_of(bad), assumptions=rel, witness=dict(w=W, x=x), timeout=tmo,
+               sig=dict(query='mono-projected'), inline_replay=lambda m, j=j, mj=mj: rpm(m, j, mj),
+               robust=dict(bad=core.any_of([sym.s_cmp('gt', sym.s_mul(o[0, u], mj), sym.s_add(sym.s_mul(o[1, u], mj), Fraction(1, 8))) for u in range(units)]),
+                           assumptions=core.box(W, -8, 8) + core.box(x, -8, 8), margin='1/8 on |inputs| <= 8'))
   for (d, k) in p.get('rdom', []):
     rel = []
     for u in range(X.shape[1]):
@@ -314,7 +337,11 @@ def cases(tier, seed):
             dict(mono=[1, 1, 0], units=2, rdom=[[0, 1]], imin=[0.0, -1.0, None], imax=[2.0, 1.0, None]),
             dict(mono=[1, 1, 1], units=1, mdom=[[0, 1], [0, 2]]),
             dict(mono=[1, 1, 1], units=2, norm=1, bias=False),
-            dict(mono=[1, 1], units=3, norm=1, bias=False)):
+            dict(mono=[1, 1], units=3, norm=1, bias=False),
+            # inputs of both directions (and none) in one layer
+            dict(mono=[1, -1, 0], units=1),
+            dict(mono=[-1, 1, 1], units=2, bias=False),
+            dict(mono=[1, -1], units=1, imin=[0.0, 0.0], imax=[1.0, 2.0], norm=1)):
     n_ = len(q['mono'])
     q.setdefault('imin', [None] * n_)
     q.setdefault('imax', [None] * n_)
